@@ -5,6 +5,9 @@ HERE = os.path.dirname(os.path.dirname(os.path.abspath(__file__)))
 ALL = ["C%02d" % i for i in range(1, 21)]
 HYD_NOTE = "Trusted: TLC; Dec.tla exact decimal arithmetic (self-tested by setup); recorded floats are logged at their shortest round-trip decimal; tolerances derived from the solver criterion max|residual| < 1e-6 with factor 2; non-converged runs are counted, not asserted."
 CLAIMED = {
+ "C10": dict(cat="model_checking", tech="TLA+ model of run_sim with a NewRun action (WntrSim.tla): TLC checks that paused runs refine the uninterrupted declarative timeline; paused/pickled real runs replayed against it; general networks compared by TLC (Agree.tla)",
+   text="WntrSim.tla models run_sim returning at a pause duration and a new simulator continuing from the state persisted in the model; for control/rule schedules with 1-3 pauses TLC checks that the algorithm still refines the declarative timeline and emits it, and the real simulator run in parts (new simulator per part, optional pickle round trip) must reproduce it with strictly increasing times. On general networks the concatenated rows of the parts are compared with the single run by TLC: same times, restart at the next hydraulic step, equal heads/demands/flows/statuses up to the solver tolerance.",
+   note="Trusted: TLC. Pause points on the hydraulic grid. Two converged solutions may differ by the solver tolerance: 2e-4 absolute + 1e-4 relative; status differences tolerated only on links carrying < 1e-4 m3/s.", ref="DESIGN.md section 5 C10"),
  "C18": dict(cat="model_checking", tech="TLA+ definition of segments as connected components of the link-node incidence graph minus valves (Segments.tla); TLC enumerates all small multigraphs x valve layers and the real functions are compared label-independently",
    text="Segments.tla defines the partition and the valve attributes (surrounding valves, demand / length increase as exact rationals). TLC checks the partition lemmas and enumerates every multigraph with <= 3 nodes / 3 links (4 / 4 thorough) incl. parallel links, dead ends and isolated nodes, with every subset of link-node incidences as valve layer and an optional duplicated row; valve_segments and valve_segment_attributes must give positive labels, exactly the specified blocks, correct sizes and attributes.",
    note="Trusted: TLC. Exhaustive inside the stated scope only.", ref="DESIGN.md section 5 C18"),
